@@ -14,7 +14,7 @@ import time
 
 VERIF = os.path.dirname(os.path.dirname(os.path.abspath(__file__)))
 REPO = os.environ.get("VERIF_REPO", "/repo")
-CACHE = os.path.join(VERIF, ".cache")
+CACHE = os.environ.get("VERIF_CACHE") or os.path.join(VERIF, ".cache")
 DRIVER = os.path.join(VERIF, "mirfacts", "target", "debug", "mirfacts")
 
 # named configurations: name -> feature list for crate llfree
@@ -161,7 +161,7 @@ def _gc_cache(keep_key):
         gens = sorted((os.stat(os.path.join(base, g)).st_mtime, g) for g in os.listdir(base))
     except OSError:
         return
-    for prefix, keep in (("repo-", 3), ("scratch-", 2)):
+    for prefix, keep in (("repo-", 3), ("scratch-", 8)):
         mine = [(m, g) for m, g in gens if g.startswith(prefix)]
         for _, g in mine[:-keep]:
             if g != keep_key:
